@@ -99,6 +99,8 @@ int rstr_find(struct rstr *rs, char *s, int n, int *grps, int flg)
 		if (rs->wend && (r + len == s || !isword(r + len - 1) ||
 				(r[len] && isword(r + len))))
 			continue;
+		if ((*r & 0xc0) == 0x80 || (r[len] & 0xc0) == 0x80)
+			continue;	/* not on a character boundary */
 		if (!match_case(r, rs->str, rs->icase)) {
 			int i;
 			if (n >= 1) {
